@@ -20,11 +20,11 @@ CLAIMED = {
   note="Assumed: hasher/notify callbacks, io.MultiWriter, os effects; 'once per path across the whole transfer' needs the merge induction (bounded stand-in); async completion order not modelled.",
   design="DESIGN.md section 3 C05"),
  "C06": dict(
-  text="Proof of the sender's per-call protocol obligations for all inputs: one STAT per walk callback with the id counter advanced for every STAT, a regular file registered under its id before the STAT leaves, end marker after a complete walk, single-use ids (queue), one DATA per non-empty chunk and none for empty ones, terminator as the last packet of sendFile, lock bracket around every send, FIN echoed as the last message of a successful request loop, progress accumulated under its lock.",
+  text="Proof of the sender's per-call protocol obligations for all inputs: one STAT per walk callback with the id counter advanced for every STAT, a regular file registered under its id before the STAT leaves, end marker after a complete walk, single-use ids (queue), one DATA per non-empty chunk and none for empty ones, terminator as the last packet of sendFile, lock bracket around every send, FIN echoed as the last message of a successful request loop, progress accumulated under its lock; the goroutine structure of a send as a sequential contract (exactly six goroutines: walker, four workers, request loop; exactly one final progress call with last == true, made after everything else; a failed walk is reported with an ERR packet).",
   note="Not decided: request order/timing/concurrency, the worker pool, errgroup. Assumed: Stream/FS interface contracts (effects), io.CopyBuffer calls only Write/Read, sync.Pool holds *[]byte.",
   design="DESIGN.md section 3 C06"),
  "C07": dict(
-  text="Proof of the receiver's per-call protocol obligations: loop invariant id counter == number of STATs received (ghost), an id is registered under the zero-based position of its STAT, pipe registered before the REQ is sent, each path requested at most once with its announced id, DATA routed to the registered pipe (Close iff empty payload) before the next receive, nil result only after io.EOF.",
+  text="Proof of the receiver's per-call protocol obligations: loop invariant id counter == number of STATs received (ghost), an id is registered under the zero-based position of its STAT, pipe registered before the REQ is sent, each path requested at most once with its announced id, DATA routed to the registered pipe (Close iff empty payload) before the next receive, nil result only after io.EOF; the diff goroutine sends FIN only after the two-way diff and then the disk writer's wait both succeeded (ghost markers) and reports a failure with ERR; exactly two goroutines; the listing file is written only for a metadata-only transfer, after both goroutines ended, to dest/.fsutil-metadata after removing a stale entry.",
   note="Not decided: interleavings of ids and STAT/DATA races, 'all content on disk before FIN' beyond sequential order. Assumed: Stream contract, channel semantics, trusted generated ResetVT/SizeVT.",
   design="DESIGN.md section 3 C07"),
  "C09": dict(
@@ -42,12 +42,12 @@ CLAIMED = {
   note="Assumed: matcher results uninterpreted; FS interface contracts; parent-closure of filtered streams rests on the C10 stand-in.",
   design="DESIGN.md section 3 C11"),
  "C12": dict(
-  text="Proof (all inputs, all iterations): ComparePath is proved equal to the first-difference path order with the separator lowest (three postconditions + termination + index safety + no overflow), the order lemmas (irreflexive, asymmetric, transitive) are discharged over the spec, and the validator's soundness direction, stack discipline and representation invariant are proved per call. The completeness direction (accepts every good sequence) is a bounded stand-in and is labelled so in the evidence.",
-  note="Assumes: govc's SSA->SMT translation; string extensionality axiom; uninterpreted filepath.Clean/Dir/Base/Join/IsAbs and bytewise string order; sort.Search contract (derived from its loop invariant); os.FileInfo methods pure.",
+  text="Proof (all inputs, all iterations): ComparePath is proved equal to the first-difference path order with the separator lowest (three postconditions + termination + index safety + no overflow), the order lemmas (irreflexive, asymmetric, transitive) are discharged over the spec and totality follows as a corollary of the verified, terminating ComparePath; per call of the validator both directions are proved: accept implies lexically contained + directory open on the stack + base name above the last child, and conversely such a path is accepted (the stack of open directories is proved strictly ascending, so the binary search finds exactly the parent entry), plus the stack discipline and representation invariant. That the stack is the right summary of the whole accepted history (the statement's 'parent accepted earlier') is a whole-sequence argument; it is additionally exercised by a bounded stand-in, labelled so in the evidence.",
+  note="Assumes: govc's SSA->SMT translation; string extensionality axiom; uninterpreted filepath.Clean/Dir/Base/Join/IsAbs with three audited axioms on clean relative paths (p == Join(Dir,Base), p inside Dir(p), non-empty), bytewise string order; sort.Search contract (derived from its loop invariant); os.FileInfo methods pure.",
   design="DESIGN.md section 3 C12"),
  "C13": dict(
   text="Proof of the per-entry copy decisions for all stats and option values: device/fifo/socket nodes keep permission and exact type bits and the device number (bit-vector; the block->char defect was found and repaired), owner before mode before times with no-follow variants, chmod never on a symlink, requested symbolic mode = Set.Apply(source mode) and octal mode mapping incl. setuid/setgid/sticky (bit-vector), source atime/mtime otherwise, metadata before xattrs, symlinks copied via Readlink+Symlink, first name of an inode is the file and later names link to it, one notification per non-directory with the destination path, MkdirAll: existing directories untouched, created ones owner-then-time. Not decided: whole-tree fidelity (composition over ReadDir recursion and the kernel).",
-  note="Assumed: os/unix/sysx effect contracts, mode.Set.Apply uninterpreted, Chowner callback, io.CopyBuffer; copyFileContent termination not claimed; fixCreatedParentDirs/newCopier/ResolveWildcards trusted.",
+  note="Assumed: os/unix/sysx effect contracts, mode.Set.Apply uninterpreted, Chowner callback, io.CopyBuffer; copyFileContent termination not claimed; slices.Reverse and patternmatcher.New by assumed contract.",
   design="DESIGN.md section 3 C13"),
  "C14": dict(
   text="Proof of the no-follow discipline per function: source and target are inspected with Lstat only (Stat only for directories already validated as parents and for the root-resolved destination), owner/time/xattr calls are the no-follow variants, chmod is skipped for symlinks, a non-directory target is removed (no-follow) or reported, pending parents are validated before an always-replace removal, destination names are root-clamped, every path handed to the copier derives from RootPath/rootPath. Two genuine escapes were found this way and repaired. The statement 'nothing outside the root' then rests on the assumed contract of continuity/fs.RootPath and kernel path resolution.",
@@ -55,7 +55,7 @@ CLAIMED = {
   design="DESIGN.md section 3 C14"),
  "C15": dict(
   text="Proof of the overlay decisions: destination selection rows of prepareTargetDir (with the root-clamped source name), trailing-separator handling in Copy (ensure_dst), copyDirectoryOnly (absent->Mkdir, dir->kept, other->error and nothing touched), ensureEmptyFileTarget (absent->nothing, dir->error untouched, other->Remove), removeTargetIfNeeded truth table, order parents->replace->empty target->create. Not decided: idempotence of a whole copy and wildcard union (whole-tree statements).",
-  note="Assumed: os effect contracts; uninterpreted filepath.Join/Base/Dir/Split/Clean; ResolveWildcards trusted.",
+  note="Assumed: os effect contracts; uninterpreted filepath.Join/Base/Dir/Split/Clean; filepath.Walk invokes only its callback.",
   design="DESIGN.md section 3 C15"),
  "C16": dict(
   text="Proof of the selection bookkeeping: include = matchesInclude && !matchesExclude (root always), nothing is created for an unselected non-directory, a directory is created eagerly only if selected itself, pending ancestors are created exactly when a selected descendant arrives, each from its own source directory's mode/owner/xattrs, the ancestor stack is restored on every return path. Equality with the reference filter (which depends on the regexp matcher of moby/patternmatcher) is not decidable by contracts here and is left to a bounded stand-in.",
@@ -66,8 +66,8 @@ CLAIMED = {
   note="Assumed: archive/tar FileInfoHeader/Writer contracts, FS interface, xattr PAX records not tracked (map iteration).",
   design="DESIGN.md section 3 C17"),
  "C18": dict(
-  text="Proof: dedupePaths returns a list in which no element lies inside another whenever its input is strictly ascending in path order (loop invariants + proved lemmas inside_less, contiguity, inside_hasprefix over the spec), a root entry collapses the list; the comparator FollowLinks sorts with is the protocol path order (found bytewise, repaired); the resolver's termination measure is a contract: a link path is added to the finite resolved set as a NEW element before any recursive call and an already resolved path returns at once, the set only grows. End-to-end closure/termination over link graphs is a bounded stand-in (not counted as proved) with two known findings (lexical '..' after a link; over-eager cycle guard).",
-  note="Assumed: the call-site precondition of dedupePaths in FollowLinks (distinct map keys sorted by the verified comparator) is not proved; FS.Walk contract (invokes its callback); filepath functions uninterpreted.",
+  text="Proof: dedupePaths returns a list in which no element lies inside another whenever its input is strictly ascending in path order (loop invariants + proved lemmas inside_less, contiguity, inside_hasprefix over the spec), a root entry collapses the list; the comparator FollowLinks sorts with is the protocol path order (found bytewise, repaired), and FollowLinks establishes that precondition: the keys collected from the resolved set are pairwise distinct (ghost visited set of the map range), sort.Slice with a comparator proved to be a strict weak order yields an ascending permutation, distinct + total order gives strictly ascending, so FollowLinks' result is ascending and prefix-free for every tree; the resolver's termination measure is a contract: a link path is added to the finite resolved set as a NEW element before any recursive call and an already resolved path returns at once, the set only grows. End-to-end closure/termination over link graphs is a bounded stand-in (not counted as proved) with two known findings (lexical '..' after a link; over-eager cycle guard).",
+  note="Assumed: sort.Slice returns a permutation ordered by a less function that is a strict weak order (the strict-weak-order conditions are proof obligations); a map range yields each key at most once; FS.Walk contract (invokes its callback); filepath functions uninterpreted.",
   design="DESIGN.md section 3 C18"),
  "C19": dict(
   text="Proof: buffer.alloc hands out the next n bytes of the concatenation view (region directly behind the last one or a fresh chunk at the end; earlier chunks keep position, backing array and length; index/slice safety; no overflow); in the receive loop every non-listing-name STAT is framed as LE32(size)+record of exactly that size, the listing's own name is skipped but still counted in the id sequence (found and repaired), ids are registered only for selected files.",
